@@ -22,6 +22,7 @@
 
 #include <dirent.h>
 #include <algorithm>
+#include <map>
 #include <memory>
 #include <set>
 
@@ -68,73 +69,101 @@ void rmTree(const std::string& p) {
   ::rmdir(p.c_str());
 }
 
-void setOrUnlink(const std::string& p, const Json::Value& v, const std::string& content) {
-  if (v.isNull()) ::unlink(p.c_str()); else vh::writeFile(p, content);
-}
+// The tree is only ever changed through this object, so it knows which directories exist and what
+// every file contains: a tick touches only what differs from the previous tick.
+struct Tree {
+  std::string root;
+  std::set<std::string> dirs;                 // relative paths of existing directories
+  std::map<std::string, std::string> files;   // absolute path -> content
 
-void listDirs(const std::string& root, const std::string& rel, std::vector<std::string>& out) {
-  std::string d = rel.empty() ? root : root + "/" + rel;
-  DIR* dp = ::opendir(d.c_str());
-  if (!dp) return;
-  std::vector<std::string> names;
-  while (auto* e = ::readdir(dp)) {
-    std::string n = e->d_name;
-    if (n == "." || n == "..") continue;
-    struct stat st;
-    if (::lstat((d + "/" + n).c_str(), &st) == 0 && S_ISDIR(st.st_mode)) names.push_back(n);
+  void setFile(const std::string& p, bool present, const std::string& content) {
+    auto it = files.find(p);
+    if (!present) {
+      if (it != files.end()) {
+        ::unlink(p.c_str());
+        files.erase(it);
+      }
+      return;
+    }
+    if (it != files.end() && it->second == content) return;
+    vh::writeFile(p, content);
+    files[p] = content;
   }
-  ::closedir(dp);
-  for (auto& n : names) {
-    std::string r = rel.empty() ? n : rel + "/" + n;
-    out.push_back(r);
-    listDirs(root, r, out);
-  }
-}
 
-void syncTree(const std::string& root, const Json::Value& cgs) {
-  std::set<std::string> want;
-  for (const auto& cg : cgs) {
-    std::string p = cg["path"].asString();
-    // all prefixes
-    for (size_t i = 0; i <= p.size(); i++) {
-      if (i == p.size() || p[i] == '/') want.insert(p.substr(0, i));
+  void removeDir(const std::string& rel) {
+    std::string abs = root + "/" + rel;
+    rmTree(abs);
+    for (auto it = dirs.begin(); it != dirs.end();) {
+      if (*it == rel || it->compare(0, rel.size() + 1, rel + "/") == 0) it = dirs.erase(it); else ++it;
+    }
+    for (auto it = files.begin(); it != files.end();) {
+      if (it->first.compare(0, abs.size() + 1, abs + "/") == 0) it = files.erase(it); else ++it;
     }
   }
-  std::vector<std::string> have;
-  listDirs(root, "", have);
-  for (auto& d : have) {
-    if (!want.count(d)) rmTree(root + "/" + d);
-  }
-  for (const auto& cg : cgs) {
-    std::string dir = root + "/" + cg["path"].asString();
-    if (cg.get("fresh", false).asBool()) rmTree(dir);
-    vh::mkdirs(dir);
-    vh::writeFile(dir + "/cgroup.controllers", "memory io\n");
-    setOrUnlink(dir + "/memory.pressure", cg["mp"], cg["mp"].isNull() ? "" : psi(cg["mp"]));
-    setOrUnlink(dir + "/io.pressure", cg["iop"], cg["iop"].isNull() ? "" : psi(cg["iop"]));
-    setOrUnlink(dir + "/memory.current", cg["cur"], cg["cur"].isNull() ? "" : std::to_string(cg["cur"].asUInt64()) + "\n");
-    {
-      std::string s;
-      const Json::Value& st = cg["stat"];
-      if (!st.isNull()) {
-        // a few lines the detectors do not look at, around the ones they do
-        s += "file 4096\n";
-        for (auto it = st.begin(); it != st.end(); ++it) s += it.key().asString() + " " + std::to_string(it->asUInt64()) + "\n";
-        s += "pgsteal 17\n";
+
+  void sync(const Json::Value& cgs) {
+    std::set<std::string> want;
+    for (const auto& cg : cgs) {
+      std::string p = cg["path"].asString();
+      for (size_t i = 0; i <= p.size(); i++) {
+        if (i == p.size() || p[i] == '/') want.insert(p.substr(0, i));
       }
-      setOrUnlink(dir + "/memory.stat", st, s);
     }
-    {
-      std::string s;
-      const Json::Value& dy = cg["dying"];
-      if (!dy.isNull()) {
-        s += "nr_descendants 3\n";
-        if (!cg.get("dying_nokey", false).asBool()) s += "nr_dying_descendants " + std::to_string(dy.asUInt64()) + "\n";
+    std::vector<std::string> gone;
+    for (auto& d : dirs) {
+      if (!want.count(d)) gone.push_back(d);
+    }
+    for (auto& d : gone) {
+      if (dirs.count(d)) removeDir(d);
+    }
+    // "fresh": the directory is re-created (new inode) although a context may still hold the old one
+    for (const auto& cg : cgs) {
+      std::string rel = cg["path"].asString();
+      if (cg.get("fresh", false).asBool() && dirs.count(rel)) removeDir(rel);
+    }
+    for (const auto& cg : cgs) {
+      std::string rel = cg["path"].asString();
+      std::string dir = root + "/" + rel;
+      if (!dirs.count(rel)) {
+        for (size_t i = 0; i <= rel.size(); i++) {
+          if (i == rel.size() || rel[i] == '/') {
+            std::string pre = rel.substr(0, i);
+            if (dirs.insert(pre).second) {
+              ::mkdir((root + "/" + pre).c_str(), 0755);
+              // an intermediate directory is a cgroup too
+              setFile(root + "/" + pre + "/cgroup.controllers", true, "memory io\n");
+            }
+          }
+        }
       }
-      setOrUnlink(dir + "/cgroup.stat", dy, s);
+      setFile(dir + "/cgroup.controllers", true, "memory io\n");
+      setFile(dir + "/memory.pressure", !cg["mp"].isNull(), cg["mp"].isNull() ? "" : psi(cg["mp"]));
+      setFile(dir + "/io.pressure", !cg["iop"].isNull(), cg["iop"].isNull() ? "" : psi(cg["iop"]));
+      setFile(dir + "/memory.current", !cg["cur"].isNull(),
+              cg["cur"].isNull() ? "" : std::to_string(cg["cur"].asUInt64()) + "\n");
+      {
+        std::string c;
+        const Json::Value& st = cg["stat"];
+        if (!st.isNull()) {
+          // a few lines the detectors do not look at, around the ones they do
+          c += "file 4096\n";
+          for (auto it = st.begin(); it != st.end(); ++it) c += it.key().asString() + " " + std::to_string(it->asUInt64()) + "\n";
+          c += "pgsteal 17\n";
+        }
+        setFile(dir + "/memory.stat", !st.isNull(), c);
+      }
+      {
+        std::string c;
+        const Json::Value& dy = cg["dying"];
+        if (!dy.isNull()) {
+          c += "nr_descendants 3\n";
+          if (!cg.get("dying_nokey", false).asBool()) c += "nr_dying_descendants " + std::to_string(dy.asUInt64()) + "\n";
+        }
+        setFile(dir + "/cgroup.stat", !dy.isNull(), c);
+      }
     }
   }
-}
+};
 
 const char* retName(Engine::PluginRet r) {
   switch (r) {
@@ -150,6 +179,8 @@ void runScenario(const Json::Value& sc, Json::Value& out) {
   std::string root = top + "/cg";
   vh::mkdirs(root);
   vh::writeFile(root + "/cgroup.controllers", "memory io\n");
+  Tree tree;
+  tree.root = root;
   const Json::Value& ticks = sc["ticks"];
 
   Engine::PluginArgs args;
@@ -163,7 +194,7 @@ void runScenario(const Json::Value& sc, Json::Value& out) {
   // the tree of the first tick exists when the plugin is constructed (init does not look at it)
   if (ticks.size() > 0) {
     vh::setNowNs(ticks[0]["clock"].asInt64());
-    syncTree(root, ticks[0]["cgs"]);
+    tree.sync(ticks[0]["cgs"]);
   }
 
   std::unique_ptr<Engine::BasePlugin> plugin(getPluginRegistry().create(sc["det"].asString()));
@@ -197,7 +228,7 @@ void runScenario(const Json::Value& sc, Json::Value& out) {
     for (Json::ArrayIndex i = 0; i < ticks.size(); i++) {
       const Json::Value& tk = ticks[i];
       vh::setNowNs(tk["clock"].asInt64());
-      syncTree(root, tk["cgs"]);
+      tree.sync(tk["cgs"]);
       // as Oomd::updateContext: new SystemContext, refresh the cached cgroups, bump the tick
       if (!persistent) ctx = std::make_unique<OomdContext>();
       SystemContext sys;
